@@ -34,6 +34,28 @@ def program(c):
     s = PRELUDE
     if fam == "vv":
         s += "pub fn f(world: &mut World<Reg, Res>) {\n    for result!(a, b) in world.query(Query::<Views!(%s, %s)>::new()).iter { use2(a, b); }\n}\n" % (ty(k1, "A"), ty(k2, "A" if same else "B"))
+    elif fam == "pv":
+        s += "pub fn f(world: &mut World<Reg, Res>) {\n    world.par_query(Query::<Views!(%s, %s)>::new()).iter.for_each(|result!(a, b)| { use2(a, b); });\n}\n" % (ty(k1, "A"), ty(k2, "A" if same else "B"))
+    elif fam == "qr":
+        s += "pub fn f(world: &mut World<Reg, Res>) {\n    let r = world.query(Query::<Views!(), filter::None, Views!(%s, %s)>::new());\n    let result!(a, b) = r.resources;\n    use2(a, b);\n}\n" % (ty(k1, "RA"), ty(k2, "RA" if same else "RB"))
+    elif fam == "sub":
+        s += "pub fn f(world: &mut World<Reg, Res>, id: Identifier) {\n    let mut r = world.query(Query::<Views!(), filter::None, Views!(), Views!(%s)>::new());\n    let mut e = r.entries.entry(id).unwrap();\n    let a = e.query(Query::<Views!(%s)>::new());\n    use1(a);\n}\n" % (ty(k1, "A"), ty(k2, "A"))
+    elif fam == "sv":
+        def lt(k, c):
+            return {"ref": "&'a %s" % c, "mut": "&'a mut %s" % c, "optref": "Option<&'a %s>" % c, "optmut": "Option<&'a mut %s>" % c}[k]
+        s += '''pub struct Sys;
+impl System for Sys {
+    type Views<'a> = Views!(%s);
+    type Filter = filter::None;
+    type ResourceViews<'a> = Views!();
+    type EntryViews<'a> = Views!(%s);
+    fn run<'a, R, S, I, E>(&mut self, q: Result<'a, R, S, I, Self::ResourceViews<'a>, Self::EntryViews<'a>, E>)
+    where R: registry::ContainsViews<'a, Self::EntryViews<'a>, E>, I: Iterator<Item = Self::Views<'a>> {}
+}
+pub fn f(world: &mut World<Reg, Res>) {
+    world.run_system(&mut Sys);
+}
+''' % (lt(k1, "A"), lt(k2, "A" if same else "B"))
     elif fam == "ve":
         s += "pub fn f(world: &mut World<Reg, Res>) {\n    let r = world.query(Query::<Views!(%s), filter::None, Views!(), Views!(%s)>::new());\n    for result!(a) in r.iter { use1(a); }\n}\n" % (ty(k1, "A"), ty(k2, "A" if same else "B"))
     elif fam == "ee":
